@@ -61,4 +61,23 @@ PROPS = {
         "known_modules": ["Known.C10"],
         "assumptions": ["linux errno values", "start directory configured through WithStartDirectory (stored clean) or default '/'"],
     },
+    "C06": {
+        "technique": "generic field-list round-trip theorem (induction over layouts, all values) instantiated on layout tables regenerated from both codecs; tables = hand-written draft layouts; four-way byte comparison (packet.go, filexfer, independent codec, Lean interpreter)",
+        "level_text": "Lean theorems: decode_encode / decode_encode_trailing / attrs_decode_encode (for every field list and every well-formed record: ids, 64-bit offsets, any strings, any payload, every attribute-flag word, any number of extended pairs and name entries), length_prefix, recv_frame, layouts_agree; instantiated by decide on the tables the translator regenerates from packet.go and internal/encoding/ssh/filexfer (main_tables_fit, fx_tables_fit, cross_tables_fit, type_bytes_agree, layout_is_draft, field_roles_are_draft, unmarshal_matches_marshal, codecs_agree, every_request_kind_covered). Correspondence: every packet kind x generated boundary values encoded by packet.go, by filexfer, by the independent harness codec and by the Lean interpreter must be byte-identical and decode back.",
+        "level_note": "Trusted: Lean kernel; translator units CodecTables (statement-level shape matchers of MarshalBinary/UnmarshalBinary/MarshalPacket/UnmarshalPacketBody); hand-written draft layouts (Spec/Layout.lean). Explicit well-formedness: lengths < 2^32, WRITE/DATA length = len(data), attribute fields zero when unflagged, MKDIR flags = 0 in packet.go (it carries only the flags word: Props/Known/C06). The in-place DATA MarshalBinary, NAME via reflection, StatVFS via binary.Write and the by-flags attribute encoders are tied by the byte-level differential only.",
+        "units": ["CodecTables", "Consts", "Gate"],
+        "modules": ["C06", "C06Inst", "C06Tables"],
+        "known_modules": ["Known.C06"],
+        "assumptions": ["filexfer VersionPacket.UnmarshalBinary drops the sticky buffer error (recorded as fxDropsStickyErr; the wire-facing client uses packet.go)"],
+    },
+    "C08": {
+        "technique": "no-panic and allocation-meter theorems for the decoder interpreter over all byte strings; framing theorems; instantiated on regenerated tables; truncation / length-field / type-byte sweep in child processes",
+        "level_text": "Lean theorems: decode_total (no decode of any byte string through a layout of bounds-checked primitives panics), attrs_total, names_total, alloc_linear (allocation meter <= 9*len + 96*fields when the count guards are present), frame_long_refused_early, frame_zero_refused, frame_never_short, frame_short_is_error, fx_frame_*; instantiated by decide: tables_all_safe, main_decoders_total, fx_decoders_total, main_alloc_linear, count guards and recvPacket facts regenerated from packet.go / filexfer (main_count_guard, framing_facts, recv_long_refused, recv_zero_refused). Correspondence: every truncation, every 4-byte window replaced by 0/1/n-1/n+1/2^31-1/2^32-1, every type byte and PRNG bytes through every decoding entry point of both codecs in child processes (outcome class vs model, allocation bound, death/hang observed), framing with a byte-counting reader.",
+        "level_note": "Trusted: Lean kernel; translator (Safe-variant recognition, count-guard and recvPacket shape matchers); the allocation meter is a model (element count x element size of every modelled make / string conversion) compared against a generous measured bound (64*len + 64 KiB via runtime.MemStats in a child with GC off). Runtime part: bytes actually allocated, process death.",
+        "units": ["CodecTables", "Consts"],
+        "modules": ["C08", "C08Inst", "C08Tables"],
+        "known_modules": ["Known.C08"],
+        "assumptions": ["64-bit platform sizes in the meter"],
+        "timeout": {"quick": 600, "thorough": 3600},
+    },
 }
